@@ -1,4 +1,4 @@
-use crate::util::{var_int, ChainGangError, Serializable};
+use crate::util::{read_bytes, var_int, ChainGangError, Serializable};
 use byteorder::{LittleEndian, ReadBytesExt, WriteBytesExt};
 use hex;
 use murmur3::murmur3_32;
@@ -106,13 +106,12 @@ impl BloomFilter {
 
 impl Serializable<BloomFilter> for BloomFilter {
     fn read(reader: &mut dyn Read) -> Result<BloomFilter, ChainGangError> {
-        let filter_len = var_int::read(reader)? as usize;
+        let filter_len = var_int::read(reader)?;
         let mut bloom_filter = BloomFilter {
-            filter: vec![0; filter_len],
+            filter: read_bytes(reader, filter_len)?,
             num_hash_funcs: 0,
             tweak: 0,
         };
-        reader.read_exact(&mut bloom_filter.filter)?;
         bloom_filter.num_hash_funcs = reader.read_u64::<LittleEndian>()? as usize;
         bloom_filter.tweak = reader.read_u32::<LittleEndian>()?;
         Ok(bloom_filter)
